@@ -334,13 +334,21 @@ def check_iterator_statuses(ctx):
     ctx.check(rets == ["rc"], "T4-iterator-status-read", "internal_get:returns-status", ig.name, ig.loc,
               "the collected iterator status is returned", "ldb_table_internal_get returns %s" % rets)
     ti = ctx.fn("ldb_twoiter_set_data_iter", "src/table/two_level_iterator.c")
-    sv = need_call(ctx, "T4-iterator-status-read", "twoiter:saverr", ti, "ldb_twoiter_saverr", "a replaced data iterator's error is kept")
+    # the status of the data iterator about to be replaced is read (and kept): either through the helper or in place
+    reads = lambda e: is_call(e, "ldb_twoiter_saverr") or (is_call(e, "ldb_wrapiter_status") and argkey(e, 0) == "&iter->data_iter")
+    sv = [(b, i, e) for (b, i, e) in ti.events("call") if reads(e)]
+    ctx.check(bool(sv), "T4-iterator-status-read", "twoiter:saverr", ti.name, ti.loc, "a replaced data iterator's error is kept",
+              "a replaced data iterator's error is kept: ldb_twoiter_set_data_iter no longer reads the status of the iterator it replaces")
+    keeps = [f2 for f2 in (ti, ctx.P.functions.get("ldb_twoiter_saverr")) if f2 is not None and not isinstance(f2, list)]
+    kept = any(key(e["lhs"]) == "iter->status" and e["op"] == "=" for f2 in keeps for b, i, e in f2.events("asg"))
+    ctx.check(kept, "T4-iterator-status-read", "twoiter:saverr-stores", ti.name, ti.loc, "the error read is stored in the iterator's own status",
+              "the status of a replaced data iterator is read but not stored")
     if sv:
         def step(q, e, st, b, i):
             from ..rules import BAD
             if q == BAD:
                 return q
-            if is_call(e, "ldb_twoiter_saverr"):
+            if reads(e):
                 return 1
             if is_call(e, "ldb_wrapiter_set") and q == 0:
                 return BAD
